@@ -306,64 +306,75 @@ Definition kids_loop (rec : node -> Q -> list Q -> bl_result) (cwc : bool) :=
         (py, a, v, r_box r :: ks)
     end.
 
+(* blockLevelLayout, blocks.go:46-53 (percentages; auto vertical margins are 0; no
+   floats, hence no clearance :69-76), then blockBoxLayout :142 (blockLevelWidth) *)
+Definition prelude (s : style) (cbw : Q) (cbh : mf) (x y : Q) : ubox * bool :=
+  let u := resolve_percentages s cbw cbh x y in
+  let u := set_vmargins u (Some (V (umt u))) (Some (V (umb u))) in
+  handle_min_max_width u cbw.
+
+(* blockContainerLayout before the loop over the children, :334-350 *)
+(* collapsingWithChildren :337-338 *)
+Definition cwc_of (u : ubox) (is_root : bool) : bool := negb (nz (ubt u) || nz (upt u) || is_root).
+(* *adjoiningMargins after :334 *)
+Definition adj1_of (u : ubox) (adj : list Q) : list Q := adj ++ [V (umt u)].
+(* box.PositionY after :345 *)
+Definition py1_of (u : ubox) (is_root : bool) (y : Q) (adj : list Q) : Q :=
+  if cwc_of u is_root then y else y +. (collapse_margin (adj1_of u adj) -. V (umt u)).
+(* positionY :343, :347 *)
+Definition start_y (u : ubox) (is_root : bool) (y : Q) (adj : list Q) : Q :=
+  if cwc_of u is_root then y else content_box_y_at u (py1_of u is_root y adj).
+(* *adjoiningMargins :346 *)
+Definition start_adj (u : ubox) (is_root : bool) (adj : list Q) : list Q :=
+  if cwc_of u is_root then adj1_of u adj else [].
+
+(* blockContainerLayout after the loop, :492-587.  leaf: no (in-flow) child;
+   lp: result of the loop (positionY, *adjoiningMargins, *thisBoxAdjoiningMargins, new children) *)
+Definition finish (u : ubox) (over is_root : bool) (y : Q) (adj : list Q) (leaf : bool)
+                  (lp : Q * list Q * list Q * list lbox) : bl_result :=
+  let position_y := fst (fst (fst lp)) in
+  let adj_cur := snd (fst (fst lp)) in
+  let var := snd (fst lp) in
+  let kids := snd lp in
+  let mt := V (umt u) in
+  let cwc := cwc_of u is_root in
+  (* :492-494 *)
+  let py2 := if cwc then y +. (collapse_margin var -. mt) else py1_of u is_root y adj in
+  (* :503-522 *)
+  let ct :=
+    leaf &&
+    ((match uh u with None => true | Some hv => Qeq_bool hv 0 end)
+     && Qeq_bool (uminh u) 0 && Qeq_bool (ubt u) 0 && Qeq_bool (upt u) 0
+     && Qeq_bool (ubb u) 0 && Qeq_bool (upb u) 0) in
+  let pa :=
+    if leaf then (if ct then (position_y, adj_cur) else (position_y +. collapse_margin adj_cur, []))
+    else (if is_auto (uh u) then (position_y, adj_cur) else (position_y, [])) in
+  (* :524-528 *)
+  let pa :=
+    if nz (ubb u) || nz (upb u) || is_root
+    then (fst pa +. collapse_margin (snd pa), [])
+    else pa in
+  let position_y := fst pa in
+  let adj_cur := snd pa in
+  (* :534-546 (the margins collapse through the box: height 0) *)
+  let h := match uh u with
+           | None => if ct then 0 else position_y -. content_box_y_at u py2
+           | Some hv => hv
+           end in
+  (* :566 *)
+  let h := fmax (fmin_ext h (umaxh u)) (uminh u) in
+  mkR (LBox (set_y_h u py2 (Some h)) over (uh u) kids) adj_cur ct var.
+
 Fixpoint layout_block (n : node) (is_root : bool) (cbw : Q) (cbh : mf) (x y : Q) (adj : list Q)
   : bl_result :=
   match n with
   | Node s cs =>
-    (* blockLevelLayout, blocks.go:46-53 *)
-    let u := resolve_percentages s cbw cbh x y in
-    let u := set_vmargins u (Some (V (umt u))) (Some (V (umb u))) in
-    (* :69-76 no floats: no clearance.  blockBoxLayout :142 *)
-    let uo := handle_min_max_width u cbw in
+    let uo := prelude s cbw cbh x y in
     let u := fst uo in
-    let over := snd uo in
-    (* blockContainerLayout *)
-    let mt := V (umt u) in
-    let adj1 := adj ++ [mt] in                                          (* :334 *)
-    let cwc := negb (nz (ubt u) || nz (upt u) || is_root) in            (* :337-338 *)
-    let py1 := if cwc then y else y +. (collapse_margin adj1 -. mt) in  (* :345 *)
-    let adj_cur := if cwc then adj1 else [] in                          (* :346 *)
-    let position_y := if cwc then y else content_box_y_at u py1 in      (* :343, :347 *)
-    let position_x := content_box_x u in                                (* :350 *)
-    let cw := V (uw u) in
-    let chh := uh u in
-    let lp := kids_loop (fun c py a => layout_block c false cw chh position_x py a) cwc
-                        cs true position_y adj_cur adj1 in
-    let position_y := fst (fst (fst lp)) in
-    let adj_cur := snd (fst (fst lp)) in
-    let var := snd (fst lp) in
-    let kids := snd lp in
-    (* :492-494 *)
-    let py2 := if cwc then y +. (collapse_margin var -. mt) else py1 in
-    (* :503-522 *)
-    let ct :=
-      match cs with
-      | [] =>
-          (match uh u with None => true | Some hv => Qeq_bool hv 0 end)
-          && Qeq_bool (uminh u) 0 && Qeq_bool (ubt u) 0 && Qeq_bool (upt u) 0
-          && Qeq_bool (ubb u) 0 && Qeq_bool (upb u) 0
-      | _ :: _ => false
-      end in
-    let pa :=
-      match cs with
-      | [] => if ct then (position_y, adj_cur) else (position_y +. collapse_margin adj_cur, [])
-      | _ :: _ => if is_auto (uh u) then (position_y, adj_cur) else (position_y, [])
-      end in
-    (* :524-528 *)
-    let pa :=
-      if nz (ubb u) || nz (upb u) || is_root
-      then (fst pa +. collapse_margin (snd pa), [])
-      else pa in
-    let position_y := fst pa in
-    let adj_cur := snd pa in
-    (* :534-546 (the margins collapse through the box: height 0) *)
-    let h := match uh u with
-             | None => if ct then 0 else position_y -. content_box_y_at u py2
-             | Some hv => hv
-             end in
-    (* :566 *)
-    let h := fmax (fmin_ext h (umaxh u)) (uminh u) in
-    mkR (LBox (set_y_h u py2 (Some h)) over (uh u) kids) adj_cur ct var
+    let lp := kids_loop (fun c py a => layout_block c false (V (uw u)) (uh u) (content_box_x u) py a)
+                        (cwc_of u is_root) cs true
+                        (start_y u is_root y adj) (start_adj u is_root adj) (adj1_of u adj) in
+    finish u (snd uo) is_root y adj (match cs with [] => true | _ :: _ => false end) lp
   end.
 
 (* makePage, pages.go:678-679, 749-750: the root box against the page's content box *)
